@@ -623,7 +623,12 @@ async fn run_mutants(c: &MutCase, info: &mut CaseInfo) -> CheckResult {
             Err(e) => {
                 info.class(format!("{ver}/{}/rejected", c.class.name()));
                 let leftover_identity = !db && target_has_identity(target_dir.path());
-                if !accounts_after.is_empty() || leftover_identity {
+                // "rejected without creating an account" is stated for checksum mismatches;
+                // for the other mutant classes (hostile names, duplicates) only the escape
+                // oracle applies and a partial import is classified
+                if (!accounts_after.is_empty() || leftover_identity) && !c.class.must_reject() {
+                    info.class(format!("{ver}/{}/rejected-after-partial-import", c.class.name()));
+                } else if !accounts_after.is_empty() || leftover_identity {
                     return Err(Failure::new(
                         format!("c18/{ver}/rejected-archive-created-account/{}", applied.kind),
                         format!("[{ver}] mutant #{mi}: {what}; import returned Err({e}) but the target now lists {} account(s){}", accounts_after.len(), if leftover_identity { " and holds an identity vault" } else { "" }),
